@@ -145,6 +145,7 @@ structure CmdSim (h : Heap) (old : HState) (name : String) (rp : RState) (h4 : H
   mcach : (h4.metaAt old.md).caching = (h.metaAt old.md).caching
   keys : ((h4.metaAt old.md).vars.map Prod.fst).Nodup
   nodup : name ≠ "getvar" → (cellsState h4 ⟨data, old.md⟩).Nodup
+  mdfree : old.md ∉ cellsHV data ∧ old.md ∉ cellsVars (h4.metaAt old.md).vars
 
 theorem cmdH_sim {h : Heap} {old : HState} {name : String} {args : List HV} {h4 : Heap} {data : HV} {vol caching : Bool}
     {rp : RState} (hc : cmdH h old name args = .ok h4 data vol caching) (lt : ∀ a ∈ cmdFoot h old args, a < h.next)
@@ -161,15 +162,17 @@ theorem cmdH_sim {h : Heap} {old : HState} {name : String} {args : List HV} {h4 
   -- results that keep the heap and the dictionary
   have same_case : ∀ (d : HV) (r' : RState), absHV h d = r'.data → r'.vars = rp.vars →
       r'.volatile = (rp.volatile || vol) → r'.caching = (rp.caching && caching) →
-      (name ≠ "getvar" → (cellsState h ⟨d, old.md⟩).Nodup) → CmdSim h old name rp h d vol caching r' :=
-    fun d r' e1 e2 e3 e4 e5 => ⟨e1, by rw [hv, e2], e3, e4, rfl, rfl, kn, e5⟩
+      (name ≠ "getvar" → (cellsState h ⟨d, old.md⟩).Nodup) → old.md ∉ cellsHV d →
+      CmdSim h old name rp h d vol caching r' :=
+    fun d r' e1 e2 e3 e4 e5 e6 => ⟨e1, by rw [hv, e2], e3, e4, rfl, rfl, kn, e5, e6, n2⟩
   -- results in a new cell
   have alloc_case : ∀ (x : Val) (r' : RState), x = r'.data → r'.vars = rp.vars →
       r'.volatile = (rp.volatile || vol) → r'.caching = (rp.caching && caching) →
       CmdSim h old name rp (h.alloc (.val x)).1 (.ref h.next) vol caching r' := by
     intro x r' e1 e2 e3 e4
     have hm : (h.alloc (.val x)).1.metaAt old.md = h.metaAt old.md := (HExt.alloc h _).metaAt mdlt
-    refine ⟨by simp [absHV, e1], ?_, e3, e4, by rw [hm], by rw [hm], by rw [hm]; exact kn, fun _ => ?_⟩
+    refine ⟨by simp [absHV, e1], ?_, e3, e4, by rw [hm], by rw [hm], by rw [hm]; exact kn, fun _ => ?_,
+      by simp only [cellsHV, List.mem_singleton]; exact Nat.ne_of_lt mdlt, by rw [hm]; exact n2⟩
     · rw [hm, e2, ← hv]
       exact absVars_congr (fun a ha => (HExt.alloc h _).frame a (vlt a ha))
     · refine cellsState_nodup_of (h := (h.alloc (.val x)).1) (d := .ref h.next) ?_ (by rw [hm]; exact n2)
@@ -188,7 +191,7 @@ theorem cmdH_sim {h : Heap} {old : HState} {name : String} {args : List HV} {h4 
     simp only [CmdOut.ok.injEq] at hc
     obtain ⟨rfl, rfl, rfl, rfl⟩ := hc
     exact ⟨{ rp with data := .int 1 }, by simp [cmdV], same_case _ _ rfl rfl (by simp) (by simp)
-      (fun _ => cellsState_nodup_of (by simp [cellsHV]) n2 n3 (by simp [cellsHV]))⟩
+      (fun _ => cellsState_nodup_of (by simp [cellsHV]) n2 n3 (by simp [cellsHV])) (by simp [cellsHV])⟩
   · -- mk
     simp only [CmdOut.ok.injEq] at hc
     obtain ⟨rfl, rfl, rfl, rfl⟩ := hc
@@ -206,13 +209,13 @@ theorem cmdH_sim {h : Heap} {old : HState} {name : String} {args : List HV} {h4 
       have hm := metaAt_write_val hcell (.list (l ++ [absHV h v])) old.md
       refine ⟨{ rp with data := .list (l ++ [absHV h v]) }, by simp [cmdV, hrd], ?_⟩
       refine ⟨by rw [hda]; simp [absHV], by rw [hm, absVars_write_notin aV]; exact hv, by simp, by simp, by rw [hm],
-        by rw [hm], by rw [hm]; exact kn, fun _ => ?_⟩
+        by rw [hm], by rw [hm]; exact kn, fun _ => ?_, n1, by rw [hm]; exact n2⟩
       rw [cellsState_write_val hcell]; exact nd
     · cases hc
   · -- ident
     simp only [CmdOut.ok.injEq] at hc
     obtain ⟨rfl, rfl, rfl, rfl⟩ := hc
-    exact ⟨rp, by simp [cmdV], same_case _ _ hd rfl (by simp) (by simp) (fun _ => nd)⟩
+    exact ⟨rp, by simp [cmdV], same_case _ _ hd rfl (by simp) (by simp) (fun _ => nd) n1⟩
   · -- copyl
     simp only at hc
     split at hc
@@ -241,7 +244,8 @@ theorem cmdH_sim {h : Heap} {old : HState} {name : String} {args : List HV} {h4 
       have hm : ∀ y z, ((h.write a (.val y)).write b (.val z)).metaAt old.md = h.metaAt old.md := fun y z => by
         rw [metaAt_write_val (isVal_write_val hcellb y), metaAt_write_val hcell]
       refine ⟨{ rp with data := .list (l ++ lo) }, by simp [cmdV, hrd, hro], ?_⟩
-      refine ⟨?_, ?_, by simp, by simp, by rw [hm], by rw [hm], by rw [hm]; exact kn, fun _ => ?_⟩
+      refine ⟨?_, ?_, by simp, by simp, by rw [hm], by rw [hm], by rw [hm]; exact kn, fun _ => ?_, n1,
+        by rw [hm]; exact n2⟩
       · rw [hda]
         simp only [absHV]
         rw [Heap.valAt_write_ne _ _ (Ne.symm ba)]
@@ -269,7 +273,8 @@ theorem cmdH_sim {h : Heap} {old : HState} {name : String} {args : List HV} {h4 
         · exact n2 h1
         · exact mdv h1
       refine ⟨{ rp with vars := setVarV rp.vars k' (absHV h v) }, by simp [cmdV, absHV], ?_⟩
-      refine ⟨?_, ?_, by simp, by simp, by simp, by simp, ?_, fun _ => ?_⟩
+      refine ⟨?_, ?_, by simp, by simp, by simp, by simp, ?_, fun _ => ?_, n1,
+        by rw [Heap.metaAt_write_same]; exact mdsv⟩
       · rw [absHV_write_notin n1]; exact hd
       · rw [Heap.metaAt_write_same]
         simp only
@@ -297,6 +302,7 @@ theorem cmdH_sim {h : Heap} {old : HState} {name : String} {args : List HV} {h4 
       subst hk'
       refine ⟨{ rp with data := (getVarV rp.vars k').getD .none }, by simp [cmdV, absHV], ?_⟩
       refine same_case _ _ ?_ rfl (by simp) (by simp) (fun hne => absurd rfl hne)
+        (fun hx => n2 (mem_cellsHV_getVar hx))
       simp only
       rw [← hv, getVarV_abs]
       cases getVar (h.metaAt old.md).vars k' <;> simp [absHV]
@@ -317,7 +323,7 @@ theorem cmdH_sim {h : Heap} {old : HState} {name : String} {args : List HV} {h4 
         have hm := metaAt_write_val hcell (.list (l ++ [absHV h v])) old.md
         refine ⟨{ rp with vars := setVarV rp.vars k' (.list (l ++ [absHV h v])) }, by simp [cmdV, absHV, hgv], ?_⟩
         refine ⟨by rw [absHV_write_notin ad]; exact hd, ?_, by simp, by simp, by rw [hm], by rw [hm],
-          by rw [hm]; exact kn, fun _ => ?_⟩
+          by rw [hm]; exact kn, fun _ => ?_, n1, by rw [hm]; exact n2⟩
         · rw [hm, absVars_write_var _ kn n3 hg, hv]
         · rw [cellsState_write_val hcell]; exact nd
       · cases hc
@@ -325,11 +331,22 @@ theorem cmdH_sim {h : Heap} {old : HState} {name : String} {args : List HV} {h4 
   · -- vol
     simp only [CmdOut.ok.injEq] at hc
     obtain ⟨rfl, rfl, rfl, rfl⟩ := hc
-    exact ⟨{ rp with volatile := true }, by simp [cmdV], same_case _ _ hd rfl (by simp) (by simp) (fun _ => nd)⟩
+    exact ⟨{ rp with volatile := true }, by simp [cmdV], same_case _ _ hd rfl (by simp) (by simp) (fun _ => nd) n1⟩
   · -- nocache
     simp only [CmdOut.ok.injEq] at hc
     obtain ⟨rfl, rfl, rfl, rfl⟩ := hc
-    exact ⟨{ rp with caching := false }, by simp [cmdV], same_case _ _ hd rfl (by simp) (by simp) (fun _ => nd)⟩
+    exact ⟨{ rp with caching := false }, by simp [cmdV], same_case _ _ hd rfl (by simp) (by simp) (fun _ => nd) n1⟩
   · cases hc
+
+/-- only `vol` makes a state volatile -/
+theorem cmdV_volatile {st r' : RState} {name : String} {args : List Val} (h : cmdV st name args = some r')
+    (hn : name ≠ "vol") : r'.volatile = st.volatile := by
+  unfold cmdV at h
+  split at h
+  all_goals first
+    | (simp only [Option.some.injEq] at h; subst h; rfl)
+    | (split at h <;> first | (simp only [Option.some.injEq] at h; subst h; rfl) | cases h)
+    | exact absurd rfl hn
+    | cases h
 
 end Liquer.Iso
